@@ -22,6 +22,19 @@ CLAIMED = {
         ref="DESIGN.md section 3 C20"),
 }
 
+CLAIMED["C16"] = dict(
+    technique="symbolic execution of the real BinaryImage code (symx) + z3 (unbounded Int for validate/len, QF_BV for export)",
+    note="Out of the claim: zero-length sub-images in the overlap clause, explicit size below own binary length, "
+         "BIN/HEX/S19 text formats (bincopy), aligned_start/aligned_length (float).",
+    ref="DESIGN.md section 3 C16")
+CLAIMED["C11"] = dict(
+    technique="symbolic execution of the real Register/RegsBitField/Registers code (symx) + z3 QF_BV, differential "
+              "against a bit-array model; verified loop-free summary of get_bytes_cnt_of_int",
+    note="Out of the claim: bit-fields on byte-reversed registers, SHIFT_RIGHT fields with non-zero reset, "
+         "alt-widths with reversed sub-register order (no database layout), string operands other than enum names / "
+         "rendered hex (hex rendering+parsing stubbed as inverse pair).",
+    ref="DESIGN.md section 3 C11")
+
 NOT_APPLICABLE = {
     "C18": "quantifies over OS-level crash points of a pickle file and over process schedules around a FileLock; the "
            "deciding code is pickle (C) / the file system / the scheduler - no SPSDK arithmetic or layout to encode; "
